@@ -7,7 +7,7 @@ def strip(e):
     """in this module objects are compared modulo borrows at every level"""
     return ds(e)
 
-from .rules_layout import short
+from .rules_layout import short, up
 from .rules_unsafe import branch_dominates
 from .rules_guard import Routine
 
@@ -117,6 +117,64 @@ def rule_no_mut_self(ctx, prog, adts, rule="R11", allow=()):
     return n
 
 
+def item_component_source(prog, body, e):
+    """an expression that is a component of a closure parameter or of a `for` loop item → (producer body, producer root expr)
+    by following the zip structure of the iterator that feeds it; None if it is not such a component"""
+    from . import terms as T
+    from .rules_layout import producer_chain
+    e = strip(e)
+    path = []
+    x = e
+    while isinstance(x, tuple) and x[0] in ("field",) :
+        path.append(x[2])
+        x = x[1]
+    path.reverse()
+    it = None
+    src_body = body
+    if isinstance(x, tuple) and x[0] == "param" and body.is_closure and x[1] >= 2:
+        site = prog.closure_site(body.key)
+        if site is None:
+            return None
+        parent, pbb, psi, ups = site
+        me = ("agg", "closure", body.key)
+        for cbb, ct in parent.calls():
+            args = parent.call_arg_exprs(cbb)
+            if any(isinstance(_strip(a), tuple) and _strip(a)[:3] == me for a in args):
+                it = args[0]
+                src_body = parent
+    elif isinstance(x, tuple) and x[0] == "downcast" and isinstance(x[1], tuple) and x[1][0] == "call" and x[1][1] == "next":
+        # (next(iter) as Some).0.<path>
+        if path and path[0] == "0":
+            path = path[1:]
+        tb = prog.tracked(body)
+        try:
+            lp = T.Loop(tb)
+            itr = lp.iterator()
+            if itr is not None:
+                it = itr[2]
+                src_body = tb
+        except T.Unrecognised:
+            return None
+    if it is None:
+        return None
+    try:
+        struct, prods = T.zip_structure(prog, src_body, it)
+    except T.Unrecognised:
+        return None
+    # navigate
+    node = struct
+    for p_ in path:
+        if isinstance(node, tuple) and p_ in ("0", "1") and int(p_) < len(node):
+            node = node[int(p_)]
+        else:
+            break
+    if isinstance(node, str) and node.startswith("e"):
+        k = int(node[1:])
+        if k < len(prods):
+            return prods[k]
+    return None
+
+
 # ------------------------------------------------------------------------------------------- C13
 
 def rule_edges_constructor(ctx, prog, rule="R11"):
@@ -218,29 +276,60 @@ def rule_lookup_delegation(ctx, prog, rule="R13"):
            "Bins::index_of is `%s`, not the left index of Edges::indices_of" % fmt(r)[:160], what="accessor does not use the lookup primitive")
     br = prog.find("histogram::bins::Bins::<A>::range_of")
     ok = False
-    detail = "no map over indices_of"
-    for bb, t in br.calls():
-        if callee_name(t) == "map":
-            a = br.call_arg_exprs(bb)
-            src = strip(a[0])
-            clo = strip(a[1])
-            if isinstance(src, tuple) and src[0] == "call" and src[1] == "indices_of" and strip(src[3][0]) == ("field", ("param", 1, "self"), "edges") \
-                    and strip(src[3][1])[:2] == ("param", 2) and clo[0] == "agg":
-                c = prog.bodies[clo[2]]
-                cr = strip(c.return_expr())
-                if isinstance(cr, tuple) and cr[0] == "agg" and cr[1] == "std::ops::Range" and len(cr[3]) == 2:
-                    def edge_at(e, which):
-                        e = strip(e)
-                        if isinstance(e, tuple) and e[0] == "call" and e[1] == "clone":
-                            e = strip(e[3][0])
-                        if isinstance(e, tuple) and e[0] == "call" and e[1] == "index" and len(e[3]) == 2:
-                            i = strip(e[3][1])
-                            recv = strip(e[3][0])
-                            return isinstance(i, tuple) and i[0] == "field" and i[2] == which and strip(i[1])[:2] == ("param", 2) \
-                                and isinstance(recv, tuple) and recv[0] == "field" and recv[2] == "edges"
-                        return False
-                    ok = edge_at(cr[3][0], "0") and edge_at(cr[3][1], "1")
-                    detail = "Range{edges[left], edges[right]} from the same pair" if ok else "range built as `%s`" % fmt(cr)
+    detail = "no Range{edges[left], edges[right]} built from Edges::indices_of"
+    from .rules_terms import unwrap_try
+    grp = [br] + prog.closures_of(br)
+    ranges = []
+    for g in grp:
+        for bb, si, st_ in g.assigns():
+            if st_["rv"]["k"] == "agg" and st_["rv"].get("adt") == "std::ops::Range":
+                ranges.append((g, bb, si, st_))
+    if len(ranges) == 1:
+        g, bb, si, st_ = ranges[0]
+        fields = [strip(g.operand_expr(f, bb, si)) for f in st_["rv"]["fields"]]
+
+        def edge_index(e):
+            """clone(index(self.edges, P.k)) → (k, P)"""
+            if isinstance(e, tuple) and e[0] == "call" and e[1] == "clone":
+                e = strip(e[3][0])
+            if isinstance(e, tuple) and e[0] == "call" and e[1] == "index" and len(e[3]) == 2:
+                recv = strip(e[3][0])
+                pb, recv0 = up(prog, g, recv) if False else (g, recv)
+                i = strip(e[3][1])
+                if isinstance(i, tuple) and i[0] == "field" and i[2] in ("0", "1"):
+                    return i[2], i[1], recv
+            return None
+        a, b_ = edge_index(fields[0]), edge_index(fields[1])
+        if a and b_ and a[0] == "0" and b_[0] == "1" and a[1] == b_[1]:
+            pair = a[1]
+            # where does the pair come from?
+            src = None
+            pp = strip(pair)
+            if isinstance(pp, tuple) and pp[0] == "param" and g.is_closure:
+                site = prog.closure_site(g.key)
+                parent = site[0]
+                for cbb, ct in parent.calls():
+                    if callee_name(ct) == "map":
+                        aa = parent.call_arg_exprs(cbb)
+                        if any(strip(x)[:3] == ("agg", "closure", g.key) for x in aa if isinstance(strip(x), tuple)):
+                            src = (parent, strip(aa[0]))
+            else:
+                src = (g, unwrap_try(pair))
+            if src is not None:
+                sb, se = src
+                se = unwrap_try(se)
+                okc = isinstance(se, tuple) and se[0] == "call" and se[1] == "indices_of" and \
+                    strip(se[3][0]) == ("field", ("param", 1, "self"), "edges") and strip(se[3][1])[:2] == ("param", 2) and not sb.is_closure
+                # edges receiver of the two index calls is self.edges (possibly captured)
+                def is_edges(r):
+                    r = strip(r)
+                    if isinstance(r, tuple) and r[0] == "field" and r[2] == "edges":
+                        rb, base = up(prog, g, r[1])
+                        return strip(base)[:2] == ("param", 1) and not rb.is_closure
+                    return False
+                ok = okc and is_edges(a[2]) and is_edges(b_[2])
+                detail = "Range{edges[left], edges[right]} from the one pair returned by self.edges.indices_of(value)" if ok else \
+                    "range built from `%s`" % fmt(se)[:100]
     ctx.ob(rule, "Bins::range_of/delegates", ok, br.where(), detail, what="accessor does not use the lookup primitive")
     gs = prog.find("histogram::grid::Grid::<A>::shape")
     r = strip(gs.return_expr())
@@ -260,70 +349,84 @@ def rule_lookup_delegation(ctx, prog, rule="R13"):
 # ------------------------------------------------------------------------------------------- C11
 
 def rule_r16(ctx, prog, rule="R16"):
+    from .paths import enumerate_paths, NotLoopFree
+    from .rules_terms import unwrap_try
+    from .rules_unsafe import norm_arith
     b = prog.find("histogram::histograms::Histogram::<A>::add_observation")
-    # the lookup
-    sw = None
-    for bb in b.live_blocks():
-        t = b.term(bb)
-        if t["k"] == "switch":
-            de = strip(b.switch_discr_expr(bb))
-            if isinstance(de, tuple) and de[0] == "discr":
-                inner = strip(de[1])
-                if isinstance(inner, tuple) and inner[0] == "call" and inner[1] == "index_of":
-                    sw = (bb, t, inner)
-    ok = sw is not None and strip(sw[2][3][0]) == ("field", ("param", 1, "self"), "grid") and strip(sw[2][3][1])[:2] == ("param", 2)
+    # the lookup: exactly one self.grid.index_of(observation)
+    looks = [(bb, t) for bb, t in b.calls() if callee_name(t) == "index_of"]
+    ok = len(looks) == 1
+    look = None
+    if ok:
+        look = strip(b.call_expr(looks[0][0]))
+        ok = strip(look[3][0]) == ("field", ("param", 1, "self"), "grid") and strip(look[3][1])[:2] == ("param", 2)
     ctx.ob(rule, "add_observation/lookup", ok, b.where(),
-           "branches on self.grid.index_of(observation)" if ok else "no branch on self.grid.index_of(observation)", what="bin lookup missing")
+           "one lookup self.grid.index_of(observation)" if ok else "the bin is not looked up with self.grid.index_of(observation) exactly once",
+           what="bin lookup missing")
     if not ok:
         return
-    bb, t, look = sw
-    some_t = [tgt for v, tgt in t["arms"] if v == 1][0]
-    none_t = [tgt for v, tgt in t["arms"] if v == 0][0]
-    # increments: stores through index_mut(self.counts, idx)
-    incs = []
+    # increments: stores through counts.index_mut(idx) whose value is old + 1 and whose idx is the payload of the lookup
+    incs = {}
     other_writes = []
     for (sbb, si, d) in b.stores():
         base = strip(b.local_expr(d["l"], sbb, si))
         if isinstance(base, tuple) and base[0] == "call" and base[1] == "index_mut":
-            incs.append((sbb, si, base))
+            recv = strip(base[3][0])
+            idx = strip(base[3][1])
+            while isinstance(idx, tuple) and idx[0] == "call" and idx[1] in ("deref", "as_slice", "as_ref", "borrow") and idx[3]:
+                idx = strip(idx[3][0])
+            idx = unwrap_try(idx)
+            st_ = b.blocks[sbb]["stmts"][si]
+            nv = norm_arith(strip(b.rvalue_expr(st_["rv"], sbb, si)))
+            inc_ok = isinstance(nv, tuple) and nv[0] == "binop" and nv[1] == "Add" and (
+                (strip(nv[3]) == ("const", "usize", 1) and strip(nv[2]) == base) or (strip(nv[2]) == ("const", "usize", 1) and strip(nv[3]) == base))
+            incs[sbb] = dict(idx_ok=(idx == look), recv_ok=(recv == ("field", ("param", 1, "self"), "counts")), inc_ok=inc_ok)
         else:
-            other_writes.append((sbb, si, base))
-    ok1 = len(incs) == 1
-    detail = "%d write(s) through counts.index_mut" % len(incs)
-    if ok1:
-        sbb, si, im = incs[0]
-        recv = strip(im[3][0])
-        idx = strip(im[3][1])
-        while isinstance(idx, tuple) and idx[0] == "call" and idx[1] in ("deref", "as_slice", "as_ref", "borrow") and idx[3]:
-            idx = strip(idx[3][0])
-        idx_ok = isinstance(idx, tuple) and idx[0] == "field" and idx[2] == "0" and strip(idx[1])[0] == "downcast" and strip(strip(idx[1])[1]) == look
-        recv_ok = recv == ("field", ("param", 1, "self"), "counts")
-        s = b.blocks[sbb]["stmts"][si]
-        val = strip(b.rvalue_expr(s["rv"], sbb, si))
-        from .rules_unsafe import norm_arith
-        nv = norm_arith(val)
-        inc_ok = isinstance(nv, tuple) and nv[0] == "binop" and nv[1] == "Add" and strip(nv[3]) == ("const", "usize", 1) and \
-            strip(nv[2]) == im or (isinstance(nv, tuple) and nv[0] == "binop" and nv[1] == "Add" and strip(nv[2]) == ("const", "usize", 1) and strip(nv[3]) == im)
-        on_some = branch_dominates(b, bb, some_t, sbb)
-        ok1 = idx_ok and recv_ok and inc_ok and on_some
-        detail = "counts[bin_index] += 1 exactly once, on the found branch, with the index returned by the lookup" if ok1 else \
-            "increment site: index from lookup=%s receiver counts=%s `+= 1`=%s on found branch=%s (value `%s`)" % (idx_ok, recv_ok, inc_ok, on_some, fmt(val))
-    ctx.ob(rule, "add_observation/increment", ok1, b.where(), detail, what="count not incremented exactly once by one")
+            other_writes.append((sbb, fmt(base)))
     ctx.ob(rule, "add_observation/no-other-write", not other_writes, b.where(),
-           "no other store" if not other_writes else "other stores: %s" % [fmt(x[2]) for x in other_writes], what="unexpected write")
-    # reject path: no mutable use of self at all, Err(BinNotFound)
-    reject_region = b.reachable_from(none_t, avoid=(bb,)) - b.reachable_from(some_t, avoid=(bb,))
-    bad = []
-    for rb in reject_region:
-        for si, s in enumerate(b.blocks[rb]["stmts"]):
-            if s["k"] == "assign" and (s["dst"]["p"] or (s["rv"]["k"] == "ref" and s["rv"]["mut"])):
-                bad.append(b.where(rb, si))
-        tt = b.term(rb)
-        if tt["k"] == "call":
-            bad.append("call " + callee_name(tt))
-    ctx.ob(rule, "add_observation/reject-changes-nothing", not bad, b.where(),
-           "the BinNotFound path performs no write and no call" if not bad else "the reject path does: %s" % bad,
-           what="rejected observation changes state")
+           "no store other than the count increment" if not other_writes else "other stores: %s" % other_writes, what="unexpected write")
+    try:
+        paths = enumerate_paths(b)
+    except NotLoopFree as ex:
+        ctx.ob(rule, "add_observation/paths", False, b.where(), "anchor not recognised: %s" % ex, what="anchor not recognised")
+        return
+    ok_found = ok_reject = True
+    n_found = n_reject = 0
+    details = []
+    for pi in paths:
+        blks = list(pi.blocks)
+        here = [bb for bb in blks if bb in incs]
+        rd = pi[1]
+        rv = strip(b.def_expr(0, rd)) if rd is not None else None
+        is_ok = isinstance(rv, tuple) and rv[0] == "agg" and rv[2] == "Ok"
+        if is_ok:
+            n_found += 1
+            good = len(here) == 1 and all(incs[here[0]].values())
+            if not good:
+                ok_found = False
+                details.append("a success path performs %d increments %s" % (len(here), [incs[h] for h in here]))
+        else:
+            n_reject += 1
+            # error path: BinNotFound (directly or through `?`), no increment, no call that could write
+            calls = [callee_name(b.term(bb)) for bb in blks if b.term(bb)["k"] == "call"]
+            benign = {"index_of", "ok_or", "branch", "from_residual", "deref", "from", "into"}
+            errv = None
+            if isinstance(rv, tuple) and rv[0] == "agg" and rv[2] == "Err":
+                errv = strip(rv[3][0])
+            elif isinstance(rv, tuple) and rv[0] == "call" and rv[1] == "from_residual":
+                for x in walk(rv):
+                    if isinstance(x, tuple) and x[0] == "agg" and x[1].endswith("BinNotFound"):
+                        errv = x
+            bnf = isinstance(errv, tuple) and errv[0] == "agg" and errv[1].endswith("BinNotFound")
+            if here or not bnf or any(c not in benign for c in calls):
+                ok_reject = False
+                details.append("reject path: increments=%d error=%s calls=%s" % (len(here), fmt(errv) if errv else rv and fmt(rv)[:60], calls))
+    ctx.ob(rule, "add_observation/increment", ok_found and n_found >= 1, b.where(),
+           "on every success path counts[bin_index] += 1 happens exactly once, with the index returned by the lookup (%d path(s))" % n_found
+           if ok_found and n_found >= 1 else "; ".join(details) or "no success path", what="count not incremented exactly once by one")
+    ctx.ob(rule, "add_observation/reject-changes-nothing", ok_reject and n_reject >= 1, b.where(),
+           "every other path returns BinNotFound without any write or call that could write (%d path(s))" % n_reject
+           if ok_reject and n_reject >= 1 else "; ".join(details) or "no reject path", what="rejected observation changes state")
     # Histogram::new
     nb = prog.find("histogram::histograms::Histogram::<A>::new")
     r = strip(nb.return_expr())
@@ -354,7 +457,7 @@ def rule_r16(ctx, prog, rule="R16"):
         rows = False
         if it_ok and isinstance(nxt, tuple) and nxt[0] == "call" and nxt[1] == "next":
             rb, re_, chain, bad = producer_chain(prog, hb, nxt[3][0])
-            rows = bad is None and strip(re_) == ("param", 1, "self") and "axis_iter" in chain
+            rows = bad is None and strip(re_) == ("param", 1, "self") and ("axis_iter" in chain or "outer_iter" in chain)
         # result unused: no switch on it, and the loop's only exit is next() == None
         me = hb.call_expr(cbb)
         used = any(any(x == me for x in walk(hb.switch_discr_expr(s))) for s in hb.live_blocks() if hb.term(s)["k"] == "switch")
@@ -367,36 +470,33 @@ def rule_r16(ctx, prog, rule="R16"):
 
 def rule_grid_index_of(ctx, prog, rule="R9"):
     g = prog.find("histogram::grid::Grid::<A>::index_of")
-    r = strip(g.return_expr())
+    grp = [g] + prog.closures_of(g)
+    calls = [(b, bb, t) for b in grp for bb, t in b.calls()
+             if callee_name(t) == "index_of" and "Bins" in (t["callee"].get("path") or "")]
     ok = False
-    detail = "result is `%s`" % fmt(r)[:160]
-    if isinstance(r, tuple) and r[0] == "call" and r[1] == "collect":
-        m = strip(r[3][0])
-        if isinstance(m, tuple) and m[0] == "call" and m[1] == "map":
-            z = strip(m[3][0])
-            clo = strip(m[3][1])
-            if isinstance(z, tuple) and z[0] == "call" and z[1] == "zip" and clo[0] == "agg":
-                from .rules_layout import producer_chain
-                r0 = producer_chain(prog, g, z[3][0], stop_at_field=True)
-                r1 = producer_chain(prog, g, z[3][1], stop_at_field=True)
-                sides = (strip(r0[1]), strip(r1[1]))
-                und = r0[3] is None and r1[3] is None
-                c = prog.bodies[clo[2]]
-                cr = strip(c.return_expr())
-                roles = False
-                if isinstance(cr, tuple) and cr[0] == "call" and cr[1] == "index_of" and len(cr[3]) == 2:
-                    def fld(e):
-                        e = strip(e)
-                        return e[2] if isinstance(e, tuple) and e[0] == "field" and strip(e[1])[:2] == ("param", 2) else None
-                    recv, val = fld(cr[3][0]), fld(cr[3][1])
-                    # zip(point, projections): item.0 = coordinate, item.1 = bins
-                    if sides[0][:2] == ("param", 2) and sides[1] == ("field", ("param", 1, "self"), "projections"):
-                        roles = recv == "1" and val == "0"
-                    elif sides[1][:2] == ("param", 2) and sides[0] == ("field", ("param", 1, "self"), "projections"):
-                        roles = recv == "0" and val == "1"
-                ok = und and roles
-                detail = "coordinate j is looked up in projection j (undisturbed zip, Bins::index_of(bins_j, v_j)), collected in order" if ok else \
-                    "zip sides %s undisturbed=%s roles-ok=%s" % ([fmt(s) for s in sides], und, roles)
+    detail = "%d calls to Bins::index_of" % len(calls)
+    if len(calls) == 1:
+        b, bb, t = calls[0]
+        a = b.call_arg_exprs(bb)
+        rs = item_component_source(prog, b, a[0])
+        vs = item_component_source(prog, b, a[1])
+        if rs is not None and vs is not None:
+            recv_ok = strip(rs[1]) == ("field", ("param", 1, "self"), "projections") and not rs[0].is_closure
+            val_ok = strip(vs[1])[:2] == ("param", 2) and not vs[0].is_closure
+            # results kept in order: collect(map(..)) returned, or a single push per item into the returned vector
+            r = strip(g.return_expr())
+            in_order = False
+            if isinstance(r, tuple) and r[0] == "call" and r[1] == "collect":
+                in_order = True
+            else:
+                tg = prog.tracked(g)
+                pushes = [pb for pb, pt in tg.calls() if callee_name(pt) == "push"]
+                in_order = len(pushes) == 1
+            ok = recv_ok and val_ok and in_order
+            detail = "coordinate j is looked up in projection j (Bins::index_of(bins_j, v_j) on the components of one undisturbed zip), results kept in order" if ok else \
+                "receiver from projections=%s value from point=%s in-order=%s" % (recv_ok, val_ok, in_order)
+        else:
+            detail = "the operands of Bins::index_of are not components of one zip item"
     ctx.ob(rule, "Grid::index_of/coordinate-axis-pairing", ok, g.where(), detail, what="coordinate j not paired with axis j")
     # arity assert dominates the zip
     arity = False
